@@ -140,6 +140,8 @@ pub fn phase(ctx: &Ctx, which: &str, rep: &mut Report) {
             preload_reader: if kind >= 2 { vec![0, 2] } else { vec![] },
             dirs_missing: rng.chance(1, 4),
             checker: false,
+            no_hard_links: false,
+            stale_debris: false,
         };
         let c = StressCase { layout, threads: 8, ops: 1500, seed: ctx.seed.wrapping_add(r).wrapping_mul(31).wrapping_add(ctx.worker as u64), with_adversary: which == "C05" && rng.chance(1, 2) };
         let out = run(&scratch.path, &c);
